@@ -298,6 +298,9 @@ func MutateStatic(t *sim.T, m *StaticModel, focus FaultFocus) string {
 			return ""
 		}
 		n := t.Range(10, 70)
+		if t.Chance(1, 12) {
+			n = t.Range(300, 2500) // past pre-allocated capacities
+		}
 		base := len(tb.Rows)
 		for i := 0; i < n; i++ {
 			row := append([]string(nil), tb.Rows[t.Choose(base)]...)
@@ -360,4 +363,46 @@ func toUTF16(b []byte, bigEndian bool) []byte {
 		}
 	}
 	return out
+}
+
+// PadCells returns a description after padding 1-3 cells with surrounding whitespace or changing
+// their case: a sibling input that differs from the original only in presentation of a value.
+func PadCells(t *sim.T, m *StaticModel) string {
+	var descs []string
+	for n := t.Range(1, 3); n > 0; n-- {
+		var tb *Table
+		col := -1
+		if t.Chance(1, 2) {
+			tb = m.Feed.Table("agency.txt")
+			if tb != nil {
+				col = tb.Col("agency_timezone")
+			}
+		}
+		if tb == nil || col < 0 {
+			tb = pickTable(t, m.Feed)
+			if tb == nil || len(tb.Header) == 0 {
+				continue
+			}
+			col = t.Choose(len(tb.Header))
+		}
+		if len(tb.Rows) == 0 {
+			continue
+		}
+		r := t.Choose(len(tb.Rows))
+		v := cell(tb, r, col)
+		switch t.Choose(4) {
+		case 0:
+			v = " " + v
+		case 1:
+			v = v + " "
+		case 2:
+			v = "\t" + v + " "
+		case 3:
+			v = strings.ToLower(v)
+		}
+		if setCell(tb, r, col, v) {
+			descs = append(descs, fmt.Sprintf("%s row %d col %s -> %q", tb.Name, r+1, tb.Header[col], v))
+		}
+	}
+	return strings.Join(descs, "; ")
 }
